@@ -555,6 +555,18 @@ def id_width(ctx, rule: str = "C08.id-template") -> None:
         ctx.rep.holds(rule, "package/no-fixed-width-string-arrays", "no array is created with a fixed-width string dtype literal (fixture with dtype='<U3' is detected)")
 
 
+def _ids_evaluated(ctx, rule: str, f, node, what: str) -> bool:
+    """Another spelling of the row / column ids: decided on the evaluated well-ID table and index map of the constructor (13
+    geometries, rules/init_model.py). -> True when the evaluation gave HOLDS (reported); False to let the caller report."""
+    from . import init_model
+
+    verdicts = [init_model.verdict(ctx, a_) for a_ in ("_wells", "_indices")]
+    if all(v_[0] == "holds" for v_ in verdicts):
+        ctx.rep.holds(rule, f"{f.qualname}/{what}[evaluated]", f"{what} written differently; " + verdicts[0][1], where=f.where(node.ast))
+        return True
+    return False
+
+
 def grid_construction(ctx, rule: str = "C08.id-template") -> None:
     """rows nested outside columns; columns 1-based; row ids = alphabet prefix of the (virtual) row count."""
     f = ctx.prog.require_func("Labware.__init__", rule)
@@ -571,6 +583,8 @@ def grid_construction(ctx, rule: str = "C08.id-template") -> None:
             inner = v.args[0] if isinstance(v, ast.Call) and call_fname(v) in ("list", "tuple") and v.args else v
             ok = isinstance(inner, ast.Call) and call_fname(inner) == "range" and len(inner.args) == 2 and isinstance(inner.args[0], ast.Constant) and inner.args[0].value == 1 \
                 and to_poly(inner.args[1]) == Poly.symbol(ast.Name(id="columns", ctx=ast.Load())) + Poly.const(1)
+            if not ok and _ids_evaluated(ctx, rule, f, node, "column_ids"):
+                continue
             ctx.rep.check(ok, rule, f"{f.qualname}/column_ids", "column ids are 1..columns", f"column ids are `{show(v)}`; expected range(1, columns + 1)", where=f.where(node.ast))
         elif name == "row_ids":
             found[name] = True
@@ -599,6 +613,8 @@ def grid_construction(ctx, rule: str = "C08.id-template") -> None:
                     else:
                         bound_ok = False
                 bound_ok = bound_ok and seen_b == {"rows", "virtual_rows"}
+            if not (ok and bound_ok) and _ids_evaluated(ctx, rule, f, node, "row_ids"):
+                continue
             ctx.rep.check(ok and bound_ok, rule, f"{f.qualname}/row_ids", "row ids = first `rows` (plates) / `virtual_rows` (troughs) letters",
                           f"row ids are `{show(v)[:80]}`; expected the alphabet prefix of length rows (plate) / virtual_rows (trough)", where=f.where(node.ast))
             # more rows than letters must be rejected before (literal-slice rule; owned by C20, referenced here)
